@@ -1,5 +1,7 @@
 package main
 
+import "fmt"
+
 // C13.R6 — the flow's default response mode is always recorded. The guard of
 // NewAuthorizeResponse ("default is fragment and the mode is query ⇒ refuse")
 // reads DefaultResponseMode; a setter that records it only when no explicit
@@ -35,4 +37,43 @@ func c13Setter(c *Ctx) {
 		}
 	}
 	c.Check(ok && n > 0, rule, role, fn, "records-default-always", "SetDefaultResponseMode stores its argument into DefaultResponseMode on every path (also when an explicit response_mode was sent)", "a path leaves DefaultResponseMode unset", w)
+}
+
+// C13.R11 — the provider's minimum parameter entropy has a floor. The state
+// length test reads Fosite.GetMinParameterEntropy, which hands out the
+// configured value only when it is positive and the package default otherwise;
+// a configurator that answers 0 for "not configured" must not switch the state
+// check off.
+func c13MinEntropyWrapper(c *Ctx) {
+	const rule, role = "C13.R11", "entropy-floor"
+	fn := c.P.Func("(*" + pkgRoot + ".Fosite).GetMinParameterEntropy")
+	if fn == nil {
+		c.RoleUnmatched(rule, role, "(*Fosite).GetMinParameterEntropy")
+		return
+	}
+	ex := c.Explore(fn, ExploreConfig{}, "entropy")
+	if !c.complete(ex, rule, role, fn) {
+		return
+	}
+	ok, n := true, 0
+	why := ""
+	var w *Path
+	for _, p := range ex.Paths {
+		if p.Kind != "return" || len(p.Rets) != 1 {
+			continue
+		}
+		n++
+		r := p.Rets[0]
+		if v, isC := r.IntConst(); isC {
+			if v < 8 {
+				ok, w, why = false, p, fmt.Sprintf("the default handed out is %d", v)
+			}
+			continue
+		}
+		lo, _ := p.IntBounds(r)
+		if lo == nil || *lo < 1 {
+			ok, w, why = false, p, "the configured value "+clip(r.Pretty(), 60)+" is handed out without being known positive"
+		}
+	}
+	c.Check(ok && n >= 2, rule, role, fn, "configured-only-if-positive", "Fosite.GetMinParameterEntropy returns the configured value only if it is positive, the package default (8) otherwise", why, w)
 }
